@@ -4,7 +4,7 @@ PROP = dict(
     level_text='Generated (role x version x suite x point x fatal event x continuation) histories with a monitor that, from the first observed death, checks every later API call: no delivery, no completion, no successful encode, receive calls fail, only an alert is emitted. Samples the history space; proves nothing beyond it.',
     level_note='Trusted: harness caller contract; death is observed through documented return codes. DTLS silently drops bad records, so DTLS cases use alert/closure events only. The TLS 1.3 early-data skip exception is not generated (no client early data).',
     technique='property-based testing: stateful history generation with a post-death invariant monitor',
-    rule='case = (victim role, version, suite, client-auth, event point k or established, event of 8 kinds, 1-8 continuation steps of 8 kinds, chunking); non-trivial = the session died and the continuation contained an input that would otherwise have been accepted (valid next record, original of the corrupted record, application encode); distinct by (role, version, point, event, death cause)',
+    rule='case = (victim role, version, suite, client-auth, event point k or established, event of 8 kinds (fatal alerts with any of the 256 descriptions), 1-8 continuation steps of 8 kinds, chunking, TLS 1.3 record padding on the victim after completion); c15_alert_sweep (enumerated): every alert description x role x version x 4 early handshake points; non-trivial = the session died and the continuation contained an input that would otherwise have been accepted (valid next record, original of the corrupted record, application encode); distinct by (role, version, point, event, death cause)',
     assumptions=[],
     targets=[dict(name='c15_stays_dead', src=['props/C15/stays_dead.cc', 'harness/wraps.c'], wraps=WRAPS, env={'VERIF_DIR': '/verif'},
                   quick=dict(cases=5000, secs=80), thorough=dict(cases=200000, secs=1200)),
